@@ -71,12 +71,16 @@ Proof.
   cbn [iTs]. constructor; auto.
 Qed.
 
-Theorem kaplan_wald_iid_risk_limit g ro t u law alpha n :
-  0 < t -> 0 <= g <= 1 -> null_law u t law -> 0 < alpha -> alpha < 1 ->
-  lsum (map (fun s => weight s * ind (rejectsb (kaplan_wald g ro t) alpha (values s))) (seqs law n)) <= alpha.
+(* the four law-free facts the risk-limit theorems need (finite-support laws here, arbitrary laws in NNM_risk_real_inst.v) *)
+Lemma kaplan_wald_hyps g ro t u : 0 < t -> 0 <= g <= 1 ->
+  (forall x e, kw_fac g t x e t == 1 + (x - t) * ((1 - g) / t))
+  /\ (forall (s : istate (const_machine 0)) x, 0 <= x <= u -> 0 <= kw_fac g t x (i_par (fun e _ => e) (const_machine 0) t s) t)
+  /\ (forall s : istate (const_machine 0), 0 <= (1 - g) / t)
+  /\ (forall a xs h, 0 < a -> a < 1 -> xs <> [] -> Forall (fun x => 0 <= x <= u) xs ->
+        In h (fst (kaplan_wald g ro t xs) :: snd (kaplan_wald g ro t xs)) -> xle h (Fin a) = true ->
+        exists j, (j < length xs)%nat /\ 1 / a <= Mi (kw_fac g t) (fun e _ => e) (const_machine 0) t (firstn (S j) xs)).
 Proof.
-  intros Ht Hg Hlaw Ha Ha1.
-  apply (iid_risk_limit (kw_fac g t) (fun _ _ => (1 - g) / t) (fun e _ => e) (const_machine 0) t u); auto.
+  intros Ht Hg. split; [|split; [|split]].
   - intros x e. unfold kw_fac. field. lra.
   - intros s x Hx. unfold kw_fac. assert (0 <= (1 - g) * x) by nra. assert (0 <= (1 - g) * x / t) by (apply div_nonneg; lra). lra.
   - intros s. apply div_nonneg; lra.
@@ -113,6 +117,13 @@ Proof.
     exists j. split; auto. unfold Mi, ifold. rewrite <- ET.
     apply pvr_le_alpha; auto. rewrite Forall_forall in Hnn. apply Hnn. eapply nth_error_In; eauto.
 Qed.
+Theorem kaplan_wald_iid_risk_limit g ro t u law alpha n :
+  0 < t -> 0 <= g <= 1 -> null_law u t law -> 0 < alpha -> alpha < 1 ->
+  lsum (map (fun s => weight s * ind (rejectsb (kaplan_wald g ro t) alpha (values s))) (seqs law n)) <= alpha.
+Proof.
+  intros Ht Hg Hlaw Ha Ha1. destruct (kaplan_wald_hyps g ro t u Ht Hg) as [H1 [H2 [H3 H4]]].
+  apply (iid_risk_limit (kw_fac g t) (fun _ _ => (1 - g) / t) (fun e _ => e) (const_machine 0) t u); auto.
+Qed.
 
 (* ---------------- Kaplan-Markov ---------------- *)
 Definition km_fac (g t : Q) (x _ _ : Q) : Q := (x + g) / (t + g).
@@ -142,12 +153,15 @@ Proof.
   constructor; auto.
 Qed.
 
-Theorem kaplan_markov_iid_risk_limit g ro t u law alpha n :
-  0 < t -> 0 <= g -> null_law u t law -> 0 < alpha -> alpha < 1 ->
-  lsum (map (fun s => weight s * ind (rejectsb (kaplan_markov g ro t) alpha (values s))) (seqs law n)) <= alpha.
+Lemma kaplan_markov_hyps g ro t u : 0 < t -> 0 <= g ->
+  (forall x e, km_fac g t x e t == 1 + (x - t) * (1 / (t + g)))
+  /\ (forall (s : istate (const_machine 0)) x, 0 <= x <= u -> 0 <= km_fac g t x (i_par (fun e _ => e) (const_machine 0) t s) t)
+  /\ (forall s : istate (const_machine 0), 0 <= 1 / (t + g))
+  /\ (forall a xs h, 0 < a -> a < 1 -> xs <> [] -> Forall (fun x => 0 <= x <= u) xs ->
+        In h (fst (kaplan_markov g ro t xs) :: snd (kaplan_markov g ro t xs)) -> xle h (Fin a) = true ->
+        exists j, (j < length xs)%nat /\ 1 / a <= Mi (km_fac g t) (fun e _ => e) (const_machine 0) t (firstn (S j) xs)).
 Proof.
-  intros Ht Hg Hlaw Ha Ha1.
-  apply (iid_risk_limit (km_fac g t) (fun _ _ => 1 / (t + g)) (fun e _ => e) (const_machine 0) t u); auto.
+  intros Ht Hg. split; [|split; [|split]].
   - intros x e. unfold km_fac. field. lra.
   - intros s x Hx. unfold km_fac. apply div_nonneg; lra.
   - intros s. apply div_nonneg; lra.
@@ -184,4 +198,11 @@ Proof.
       assert (ETq : T == 1 / q) by (field_simplify_eq; lra).
       rewrite ETq. apply Qle_shift_div_l; auto. assert (E2 : 1 / a * q == q / a) by (field; lra). rewrite E2.
       apply Qle_shift_div_r; lra.
+Qed.
+Theorem kaplan_markov_iid_risk_limit g ro t u law alpha n :
+  0 < t -> 0 <= g -> null_law u t law -> 0 < alpha -> alpha < 1 ->
+  lsum (map (fun s => weight s * ind (rejectsb (kaplan_markov g ro t) alpha (values s))) (seqs law n)) <= alpha.
+Proof.
+  intros Ht Hg Hlaw Ha Ha1. destruct (kaplan_markov_hyps g ro t u Ht Hg) as [H1 [H2 [H3 H4]]].
+  apply (iid_risk_limit (km_fac g t) (fun _ _ => 1 / (t + g)) (fun e _ => e) (const_machine 0) t u); auto.
 Qed.
